@@ -1079,7 +1079,8 @@ struct TemplateCore {
         if ((value == nullptr) ||
             !(value->CopyValueTo(*stream_, {Config::TemplatePrecision, QENTEM_TEMPLATE_DOUBLE_FORMAT},
                                  &(StringUtils::EscapeHTMLSpecialChars<StringStream_T, Char_T>)))) {
-            if (tag.IDLength != SizeT8{0}) {
+            if ((tag.IDLength != SizeT8{0}) && (tag.Length == SizeT16(tag.IDLength))) {
+                // Only the bare loop variable stands for the member's key, not a path below it.
                 const StringView<Char_T> &key = loops_items_->Storage()[tag.Level].Key;
 
                 if (key.Length() != 0) {
